@@ -754,10 +754,34 @@ def plan(prop, tier):
     return {"runs": 2400, "budget_s": 75, "timeout_s": 90, "selfcheck_runs": 8}
 
 
+# A fixed tiny configuration used as a saturation probe: P1 x P1 on one
+# triangle, 2 workers.  9 local pairs are split 5 + 4, so at kernel
+# granularity exactly C(9, 4) = 126 interleavings exist; every 5th run samples
+# one of them (policy: uniform choice at kernel boundaries) and the evidence
+# reports how many of the 126 were reached.
+TINY = {"mesh": {"family": "tri-fan", "n": 1, "seed": 1, "perm": False,
+                 "jiggle": 0.0, "order": 1},
+        "elem_u": "P1", "elem_v": "P1", "cell": "tri", "basis": "cell",
+        "integrand": "mass_nonsym", "dtype": "float64", "coef": None,
+        "entry": "assemble", "intorder": 2, "subset_seed": 3, "data_seed": 4,
+        "seq": None, "nthreads": {"mode": "fixed", "r": 0, "fixed": 2}}
+TINY_TOTAL = 126
+
+
 def run(prop, rseed, tier, k):
     rng = prng.pyrng(rseed)
     wl = gen_workload(rng)
     pol = gen_policy(rng)
+    if k % 5 == 4:
+        wl = dict(TINY)
+        pol = dict(pol, kind="kernel-coarse")
+        out = execute(wl, make_chooser(pol), strict=False, policy=pol)
+        if "keys" in out:
+            # one triangle of the fan is used: restrict keeps the first 16
+            # cells, the fan has 3; the kernel order is what matters
+            order = out["trace"]["info"]["kernel_order"]
+            out["keys"]["tiny_kernel_orders"] = [digest.hbytes(repr(order))]
+        return out
     return execute(wl, make_chooser(pol), strict=False, policy=pol)
 
 
@@ -876,7 +900,12 @@ def describe(prop):
                 "with serial assembly; distinct_nontrivial counts distinct "
                 "(workload configuration, full step-level decision sequence) "
                 "pairs in which at least two workers evaluated kernels and "
-                "their kernel invocations interleaved",
+                "their kernel invocations interleaved. Saturation probe: "
+                "every 5th run is the fixed tiny configuration (P1 x P1, one "
+                "cell block, 2 workers, 9 pairs split 5 + 4) for which "
+                "exactly 126 kernel-granularity interleavings exist; "
+                "coverage.distinct.tiny_kernel_orders says how many of them "
+                "this run reached",
         "simulated_time": "logical scheduler steps only; the system under "
                           "test has no timers. The virtual sleep/join-timeout "
                           "clock exists and stayed at zero unless "
